@@ -245,6 +245,7 @@ def env_generator_attrs(ctx: Ctx):
         else:
             ctx.ob("C18.d", f"{cname}:generator-attributes", True, path, f"all self.generator.<attr> reads are defined by {g.name}")
     atsp_triangle(ctx)
+    integer_demands(ctx)
     # C18.f: MTVRP generator -- time windows / service times are times, built from distances through the speed
     from .. import units
     menv = EnvA(ctx.repo, T.ALL_ENVS["MTVRPEnv"], "MTVRPEnv")
@@ -282,6 +283,46 @@ def _poly_of_expr(e, lo, hi):
         a = _poly_of_expr(e.operand, lo, hi)
         return None if a is None else {k: -v for k, v in a.items()}
     return None
+
+
+def integer_demands(ctx: Ctx):
+    """C18.g: customer demands are integers in [min_demand, max_demand] divided by the capacity: a real draw from
+    [min - 1, max - 1) is truncated and shifted by + 1 (so 0 is impossible and max is attainable only through the shift).
+    Decides the formula (sampling bounds and shift agree); that max_demand <= capacity is a configuration value, not decided."""
+    g = ctx.repo.get_class("rl4co/envs/routing/cvrp/generator.py", "CVRPGenerator")
+    ini, gen = g.methods["__init__"], g.methods["_generate"]
+    ctx.fn(ini)
+    ctx.fn(gen)
+    calls = [n.value for n in ast.walk(ini.node) if isinstance(n, ast.Assign) and len(n.targets) == 1 and isinstance(n.targets[0], ast.Attribute) and n.targets[0].attr == "demand_sampler"
+             and isinstance(n.value, ast.Call) and getattr(n.value.func, "id", "") == "get_sampler"]
+    b_ok = False
+    shift = None
+    if len(calls) == 1 and len(calls[0].args) >= 4:
+        lo = _poly_of_expr(calls[0].args[2], "min_demand", "max_demand")
+        hi = _poly_of_expr(calls[0].args[3], "min_demand", "max_demand")
+        if lo is not None and hi is not None and set(lo) <= {"min_demand", "1"} and set(hi) <= {"max_demand", "1"} and lo.get("min_demand") == 1.0 and hi.get("max_demand") == 1.0:
+            if lo.get("1", 0.0) == hi.get("1", 0.0):
+                shift = -lo.get("1", 0.0)
+                b_ok = True
+    it = vg.Interp(ctx.repo, g, inline_policy=lambda f, a: False)
+    fr = it.run_function(gen)
+    dm = fr.ret.cells.get("demand") if isinstance(fr.ret, vg.TD) else None
+    f_ok, why = False, "demand is not (int(sample) + shift) / capacity"
+    if isinstance(dm, vg.S):
+        p = nf.poly(dm)
+        recs = [a for a in p.atoms() if a.op == "recip" and nf.strip(a.args[0]).op == "selfattr" and nf.strip(a.args[0]).args[0] == "capacity"]
+        if len(recs) == 1:
+            rest = [(c, [f for f in fs if f[0] is not recs[0]]) for c, fs in p.monos() if any(f[0] is recs[0] for f in fs)]
+            if len(rest) == len(p.monos()) == 2:
+                consts = [c for c, fs in rest if not fs]
+                ints = [fs[0][0] for c, fs in rest if c == 1 and len(fs) == 1 and fs[0][0].op == "meth" and fs[0][0].args[1] == "int"]
+                if len(consts) == 1 and len(ints) == 1:
+                    smp = nf.strip(ints[0].args[0])
+                    from_sampler = smp.op == "meth" and smp.args[1] == "sample" and nf.strip(smp.args[0]).op == "selfattr" and nf.strip(smp.args[0]).args[0] == "demand_sampler"
+                    f_ok = from_sampler and shift is not None and float(consts[0]) == shift
+                    why = f"demand = (int(demand_sampler.sample()) + {float(consts[0]):g}) / capacity; the sampler is built on [min_demand - {shift}, max_demand - {shift}): integers min..max after the shift: {f_ok}"
+    ctx.ob("C18.g", "CVRPGenerator:integer-demand-range", b_ok and f_ok, gen.loc, why, construct="CVRPGenerator:demand-range")
+    ctx.assume("C18.g: torch's .int() truncates towards zero and the demand sampler draws from the half-open interval [low, high)")
 
 
 def atsp_triangle(ctx: Ctx):
